@@ -45,7 +45,11 @@ def plan(tier, include_args=True, include_noreq=False, only=None):
     return out
 
 
-POSTS = {"c07removal": E.post_c07_removal, "c18suffix": E.post_c18_suffix, "c04": E.post_c04, "reuse": E.post_reuse}
+def _post_c18(case, st):
+    return list(E.post_c18_suffix(case, st) or ()) + [v for v in (E.post_reuse(case, st) or ()) if v["property"] == "C18"]
+
+
+POSTS = {"c07removal": E.post_c07_removal, "c18suffix": E.post_c18_suffix, "c18suffix+reuse": _post_c18, "c04": E.post_c04, "reuse": E.post_reuse}
 
 
 def make_tasks(tier, seed, oracles, layouts=(), layout_depth=2, budget_s=None, post=None, base_layout="space", **kw):
@@ -211,6 +215,9 @@ def valid_tasks(tier, seed, oracles, post=None, with_edits=True, layouts=(), bas
         tasks.append(dict(base, kind="cmd", name=c, cap=cap))
     tasks.append(dict(base, kind="chains", depth=2 if tier == "quick" else 3))
     tasks.append(dict(base, kind="repeat"))
+    rparts = 4 if tier == "quick" else 16
+    for i in range(rparts):
+        tasks.append(dict(base, kind="requires", part=i, parts=rparts, one=3 if tier == "quick" else 4, two=2 if tier == "quick" else 3))
     if with_edits:
         parts = 16 if tier == "quick" else 48
         for i in range(parts):
@@ -235,6 +242,10 @@ def _valid_words(t):
     elif k == "repeat":
         for c in S.all_commands():
             for w in G.repeat_scripts(c):
+                yield w
+    elif k == "requires":
+        for i, w in enumerate(G.require_scripts(t["one"], t["two"])):
+            if i % t["parts"] == t["part"]:
                 yield w
     elif k == "edits":
         src = list(G.test_scripts(1)) + G.chains(1)
@@ -261,8 +272,8 @@ def valid_task(t):
     nvalid = 0
     distinct = set()
     for w in _valid_words(t):
-        word = G.PREFIX + tuple(w)
-        case = E.execute(word, want_config=(t.get("post") == "c18suffix"), layout=t.get("base_layout", "space"))
+        word = (() if t["kind"] == "requires" else G.PREFIX) + tuple(w)
+        case = E.execute(word, want_config=str(t.get("post")).startswith("c18suffix"), layout=t.get("base_layout", "space"))
         st.executions += 1
         st.transitions += 1
         st.verdicts[case.obs.verdict] = st.verdicts.get(case.obs.verdict, 0) + 1
@@ -279,7 +290,7 @@ def valid_task(t):
             viols.extend(post(case, st) or ())
         lays = (t.get("layouts") or ()) if case.v.kind == "VALID" else (t.get("edit_layouts") or ())
         for lay in lays:
-            lc = E.execute(word, layout=lay, want_config=(t.get("post") == "c18suffix"))
+            lc = E.execute(word, layout=lay, want_config=str(t.get("post")).startswith("c18suffix"))
             st.executions += 1
             for o in orcs:
                 viols.extend(o(lc))
